@@ -39,8 +39,8 @@ chunks) is what the whole-stream call leaves -/
 theorem recvLoopA_eq (σ : BState) (buf : Bytes) (chunks : List Bytes) (term : Term)
     (hne : NonEmptyChunks chunks) :
     let res := recvLoopA σ buf chunks term
-    (res.1, res.2.1 ++ res.2.2.flatten) = recvAll σ (buf ++ chunks.flatten) term ∧
-    NonEmptyChunks res.2.2 := by
+    (res.1, res.2.1 ++ res.2.2.1.flatten) = recvAll σ (buf ++ chunks.flatten) term ∧
+    NonEmptyChunks res.2.2.1 := by
   induction chunks generalizing σ buf with
   | nil =>
     unfold recvLoopA recvAll
@@ -64,7 +64,7 @@ theorem recvLoopA_eq (σ : BState) (buf : Bytes) (chunks : List Bytes) (term : T
       rw [recvAll_pending σ buf (c ++ cs.flatten) term hp, ← List.append_assoc]
       exact this
     · -- final: nothing is read
-      have hstep : recvLoopA σ buf (c :: cs) term = ((recvAll σ buf term).1, (recvAll σ buf term).2, c :: cs) := by
+      have hstep : recvLoopA σ buf (c :: cs) term = ((recvAll σ buf term).1, (recvAll σ buf term).2, c :: cs, (feed σ buf).1) := by
         rw [recvLoopA]
         unfold recvAll
         rcases hf : feed σ buf with ⟨σ', rest, out⟩
@@ -116,8 +116,8 @@ buffer invariant; no `panic` is introduced by the buffer bookkeeping -/
 theorem recvLoopS_eq (fuel : Nat) (σ : BState) (b : SBuf) (chunks : List Bytes) (term : Term)
     (hne : NonEmptyChunks chunks) (hinv : SInv b) (hfuel : scriptLen chunks < fuel) :
     let res := recvLoopS fuel σ b chunks term
-    (res.1, res.2.1.data ++ res.2.2.flatten) = recvAll σ (b.data ++ chunks.flatten) term ∧
-    NonEmptyChunks res.2.2 ∧ SInv res.2.1 ∧ res.2.1.cap ≥ b.cap := by
+    (res.1, res.2.1.data ++ res.2.2.1.flatten) = recvAll σ (b.data ++ chunks.flatten) term ∧
+    NonEmptyChunks res.2.2.1 ∧ SInv res.2.1 ∧ res.2.1.cap ≥ b.cap := by
   induction fuel generalizing σ b chunks with
   | zero => omega
   | succ fuel ih =>
@@ -162,7 +162,7 @@ theorem recvLoopS_eq (fuel : Nat) (σ : BState) (b : SBuf) (chunks : List Bytes)
         · have : (afterRead b rest got).cap ≥ b.cap := by unfold afterRead; simp only; split <;> omega
           omega
     · have hstep : recvLoopS (fuel + 1) σ b chunks term =
-          ((recvAll σ b.data term).1, { b with data := (recvAll σ b.data term).2 }, chunks) := by
+          ((recvAll σ b.data term).1, { b with data := (recvAll σ b.data term).2 }, chunks, (feed σ b.data).1) := by
         rw [recvLoopS]
         unfold recvAll
         rcases hf : feed σ b.data with ⟨σ', rest, out⟩
@@ -177,5 +177,73 @@ theorem recvLoopS_eq (fuel : Nat) (σ : BState) (b : SBuf) (chunks : List Bytes)
         cases out <;> rfl
       simp only [this]
       omega
+
+/-- a call that yields a response leaves the initial builder state behind -/
+theorem recvLoopA_resp_initial (σ : BState) (buf : Bytes) (chunks : List Bytes) (term : Term) (r : Response)
+    (h : (recvLoopA σ buf chunks term).1 = .resp r) : (recvLoopA σ buf chunks term).2.2.2 = .initial := by
+  induction chunks generalizing σ buf with
+  | nil =>
+    unfold recvLoopA at h ⊢
+    rcases hf : feed σ buf with ⟨σ', rest, out⟩
+    have hd := feed_done_initial σ buf
+    rw [hf] at h hd
+    cases out with
+    | done r' => simpa using hd r' rfl
+    | invalid => simp at h
+    | panic => simp at h
+    | pending => simp only at h; exact absurd h (by unfold termItem eofItem; cases term <;> simp <;> split <;> simp)
+  | cons c cs ih =>
+    unfold recvLoopA at h ⊢
+    rcases hf : feed σ buf with ⟨σ', rest, out⟩
+    have hd := feed_done_initial σ buf
+    rw [hf] at h hd
+    cases out with
+    | done r' => simpa using hd r' rfl
+    | invalid => simp at h
+    | panic => simp at h
+    | pending =>
+      simp only at h ⊢
+      split
+      · rename_i hc
+        simp only [hc, if_true] at h
+        exact absurd h (by unfold eofItem; split <;> simp)
+      · rename_i hc
+        simp only [hc] at h
+        exact ih σ' (rest ++ c) h
+
+theorem recvLoopS_resp_initial (fuel : Nat) (σ : BState) (b : SBuf) (chunks : List Bytes) (term : Term) (r : Response)
+    (h : (recvLoopS fuel σ b chunks term).1 = .resp r) : (recvLoopS fuel σ b chunks term).2.2.2 = .initial := by
+  induction fuel generalizing σ b chunks with
+  | zero => simp [recvLoopS] at h
+  | succ fuel ih =>
+    unfold recvLoopS at h ⊢
+    by_cases hcap : b.cap < b.data.length
+    · simp [hcap] at h
+    · simp only [hcap, if_false] at h ⊢
+      rcases hf : feed σ b.data with ⟨σ', rest, out⟩
+      have hd := feed_done_initial σ b.data
+      rw [hf] at h hd
+      cases out with
+      | done r' => simpa using hd r' rfl
+      | invalid => simp at h
+      | panic => simp at h
+      | pending =>
+        simp only at h ⊢
+        cases hrc : readChunk (b.cap - rest.length) chunks with
+        | none =>
+          rw [hrc] at h
+          simp only at h
+          exact absurd h (by unfold termItem eofItem; cases term <;> simp <;> split <;> simp)
+        | some p =>
+          obtain ⟨got, cs⟩ := p
+          rw [hrc] at h
+          simp only at h ⊢
+          split
+          · rename_i hg
+            simp only [hg, if_true] at h
+            exact absurd h (by unfold eofItem; split <;> simp)
+          · rename_i hg
+            simp only [hg] at h
+            exact ih σ' _ cs h
 
 end Mpd.Conn
